@@ -5,7 +5,7 @@ import json, os, sys
 rows = []
 for seed in sorted(os.listdir("/verif/seeded")):
     d = "/verif/seeded/" + seed
-    if not os.path.isdir(d):
+    if not os.path.isdir(d) or seed.startswith("_"):
         continue
     am = json.load(open(d + "/agent_meta.json"))
     conf = json.load(open(d + "/confirm.json")) if os.path.exists(d + "/confirm.json") else {}
